@@ -248,10 +248,14 @@ template <class R> void wrapped_shards(char const *rname, char const *shardname)
 {
   using base = typename rt<R>::base;
   std::string const t = rname;
-  vrt::shard(std::string("uniform_int/") + shardname + "/minstd_rand",
-             [t] { uniform_int_family<eng_minstd, R>(t, all_intervals<base>(), 0, 1); });
-  vrt::shard(std::string("uniform_int/") + shardname + "/mt19937",
-             [t] { uniform_int_family<eng_mt, R>(t, all_intervals<base>(), 0, 1); });
+  constexpr unsigned nparts = 2;
+  for (unsigned part = 0; part < nparts; ++part)
+  {
+    vrt::shard(std::string("uniform_int/") + shardname + "/minstd_rand/" + std::to_string(part),
+               [t, part] { uniform_int_family<eng_minstd, R>(t, all_intervals<base>(), part, nparts); });
+    vrt::shard(std::string("uniform_int/") + shardname + "/mt19937/" + std::to_string(part),
+               [t, part] { uniform_int_family<eng_mt, R>(t, all_intervals<base>(), part, nparts); });
+  }
 }
 }
 
